@@ -457,7 +457,7 @@ def _inspect(ctx, env, case, root, model, cpv, old, new, status, what, events):
 def plan(tier, seed):
     # crash tasks first: they are the deciding part and must not be starved by the budget guard
     if tier == "quick":
-        return [{"task": "crash", "examples": 40} for _ in range(10)] + [
+        return [{"task": "crash", "examples": 32} for _ in range(10)] + [
             {"task": "roundtrip", "examples": 300} for _ in range(6)
         ]
     return [{"task": "crash", "examples": 1200} for _ in range(16)] + [
